@@ -237,8 +237,16 @@ def parser_sets_negation(ctx, cr):
                 sites.setdefault(k, 0)
                 sites[k] += 1
     ctx.note_analysed("construction_sites", ["%s x%d" % kv for kv in sorted(sites.items())])
-    if sum(sites.values()) < 6:
-        ctx.lost(rule, rule + ":floor", "only %d construction sites of GuardAccessClause/GuardNamedRuleClause in the parser (floor 6)" % sum(sites.values()))
+    # floor: both clause types are still constructed by the parser, in at least three functions (the count of sites itself may shrink
+    # when two duplicated constructions are merged)
+    kinds = set()
+    for k in sites:
+        for bi, si, s in M.iter_stmts(cr.fns[k]):
+            rv = s.get("rv")
+            if rv and rv.get("r") == "agg" and rv.get("adt") in (GAC, GNC):
+                kinds.add(rv["adt"])
+    if kinds != {GAC, GNC} or len(sites) < 3:
+        ctx.lost(rule, rule + ":floor", "clause constructions in the parser: kinds %s in %d functions (expected both GuardAccessClause and GuardNamedRuleClause, in >= 3 functions)" % (sorted(kinds), len(sites)))
     # constructions outside the parser would bypass it
     for k, f in cr.fns.items():
         if k.startswith("rules::parser::") or "serde" in k or "Deserialize" in k or "Clone" in k:
